@@ -27,8 +27,8 @@ import (
 // (iii) the written payload / sequence number / timestamp / marker, and TrackRemote.Codec/StreamID/ID with
 // the sender's codec and ids.
 type c23Track struct {
-	mime, streamID, trackID string
-	sender                  string
+	mime, fmtp, streamID, trackID string
+	sender                        string
 }
 
 func c23API() (*webrtc.API, error) {
@@ -46,11 +46,21 @@ func c23API() (*webrtc.API, error) {
 
 // announced returns, for the msid "<stream> <track>", the primary SSRC and the payload types per mime
 // type of the section that carries it.
+// c23Fmtps maps payload type → fmtp line for the section that carries the msid (filled by c23Announced).
+var c23FmtpMu sync.Mutex
+
 func c23Announced(desc *webrtc.SessionDescription, streamID, trackID string) (ssrc uint32, pts map[string][]uint8, ok bool) {
+	ssrc, pts, _, ok = c23AnnouncedF(desc, streamID, trackID)
+
+	return ssrc, pts, ok
+}
+
+func c23AnnouncedF(desc *webrtc.SessionDescription, streamID, trackID string) (ssrc uint32, pts map[string][]uint8, fmtps map[uint8]string, ok bool) {
 	parsed := &sdp.SessionDescription{}
 	if err := parsed.UnmarshalString(desc.SDP); err != nil {
-		return 0, nil, false
+		return 0, nil, nil, false
 	}
+	fmtps = map[uint8]string{}
 	for _, md := range parsed.MediaDescriptions {
 		found := false
 		var first uint32
@@ -81,6 +91,12 @@ func c23Announced(desc *webrtc.SessionDescription, streamID, trackID string) (ss
 		}
 		pts = map[string][]uint8{}
 		for _, a := range md.Attributes {
+			if a.Key == "fmtp" {
+				f := strings.SplitN(a.Value, " ", 2)
+				if v, err := strconv.Atoi(f[0]); err == nil && len(f) == 2 {
+					fmtps[uint8(v)] = f[1] //nolint:gosec
+				}
+			}
 			if a.Key == "rtpmap" {
 				f := strings.Fields(a.Value)
 				if len(f) == 2 {
@@ -92,10 +108,10 @@ func c23Announced(desc *webrtc.SessionDescription, streamID, trackID string) (ss
 			}
 		}
 
-		return first, pts, haveFirst
+		return first, pts, fmtps, haveFirst
 	}
 
-	return 0, nil, false
+	return 0, nil, nil, false
 }
 
 func c23Run(a []string) string {
@@ -110,7 +126,11 @@ func c23Run(a []string) string {
 	}
 	tracks := make([]c23Track, nt)
 	for i := range tracks {
-		tracks[i] = c23Track{mime: string(unhx(a[4+4*i])), streamID: string(unhx(a[5+4*i])), trackID: string(unhx(a[6+4*i])), sender: a[7+4*i]}
+		mf := strings.SplitN(string(unhx(a[4+4*i])), "|", 2)
+		tracks[i] = c23Track{mime: mf[0], streamID: string(unhx(a[5+4*i])), trackID: string(unhx(a[6+4*i])), sender: a[7+4*i]}
+		if len(mf) == 2 {
+			tracks[i].fmtp = mf[1]
+		}
 	}
 	npk, e1 := strconv.Atoi(a[4+4*nt])
 	seed, e2 := strconv.ParseInt(a[5+4*nt], 10, 64)
@@ -143,7 +163,7 @@ func c23Run(a []string) string {
 	}
 	locals := make([]*webrtc.TrackLocalStaticRTP, nt)
 	for i, t := range tracks {
-		tl, err := webrtc.NewTrackLocalStaticRTP(webrtc.RTPCodecCapability{MimeType: t.mime}, t.trackID, t.streamID)
+		tl, err := webrtc.NewTrackLocalStaticRTP(webrtc.RTPCodecCapability{MimeType: t.mime, SDPFmtpLine: t.fmtp}, t.trackID, t.streamID)
 		if err != nil {
 			return "inconclusive newtrack"
 		}
@@ -286,7 +306,7 @@ func c23Run(a []string) string {
 		rmu.Unlock()
 		f := map[string]string{"ssrc": "ok", "pt": "ok", "codec": "ok", "sid": "ok", "id": "ok", "payload": "ok", "hdr": "ok", "delivered": "ok"}
 		rd := other(t.sender).RemoteDescription()
-		annSSRC, pts, okAnn := c23Announced(rd, t.streamID, t.trackID)
+		annSSRC, pts, fmtps, okAnn := c23AnnouncedF(rd, t.streamID, t.trackID)
 		if r == nil {
 			// no TrackRemote with the sender's ids: either nothing arrived or it arrived under other ids
 			rmu.Lock()
@@ -316,7 +336,7 @@ func c23Run(a []string) string {
 			if r.tr.ID() != t.trackID {
 				f["id"] = "bad"
 			}
-			if len(pkts) > 0 && !strings.EqualFold(codec.MimeType, t.mime) {
+			if len(pkts) > 0 && (!strings.EqualFold(codec.MimeType, t.mime) || (t.fmtp != "" && codec.SDPFmtpLine != t.fmtp)) {
 				f["codec"] = "bad"
 			}
 			for _, p := range pkts {
@@ -325,7 +345,9 @@ func c23Run(a []string) string {
 				}
 				okPT := false
 				for _, v := range pts[strings.ToLower(t.mime)] {
-					if v == p.PayloadType {
+					// when the track asks for a specific codec variant (fmtp line), only the payload type
+					// negotiated for exactly that variant is right
+					if v == p.PayloadType && (t.fmtp == "" || fmtps[v] == t.fmtp) {
 						okPT = true
 					}
 				}
@@ -378,7 +400,12 @@ func init() {
 			"distinct op lines with at least one delivered packet.",
 		Gen: func(c *Ctx) {
 			r := c.Rng
-			mimes := []string{webrtc.MimeTypeOpus, webrtc.MimeTypeVP8, webrtc.MimeTypeVP9, webrtc.MimeTypeH264, webrtc.MimeTypeAV1}
+			mimes := []string{webrtc.MimeTypeOpus, webrtc.MimeTypeVP8, webrtc.MimeTypeVP9, webrtc.MimeTypeH264, webrtc.MimeTypeAV1,
+				// specific variants of the default engine that are not the first of their mime type
+				webrtc.MimeTypeVP9 + "|profile-id=2", webrtc.MimeTypeVP9 + "|profile-id=0",
+				webrtc.MimeTypeH264 + "|level-asymmetry-allowed=1;packetization-mode=0;profile-level-id=42001f",
+				webrtc.MimeTypeH264 + "|level-asymmetry-allowed=1;packetization-mode=1;profile-level-id=42e01f",
+				webrtc.MimeTypeH264 + "|level-asymmetry-allowed=1;packetization-mode=0;profile-level-id=4d001f"}
 			for n := 0; n < c.N(10, 120); n++ {
 				nt := 1 + r.Intn(3)
 				sb := strings.Builder{}
